@@ -235,6 +235,14 @@ func (y *asideYieldClient) Do(ctx context.Context, cmd rueidis.Completed) rueidi
 	if cs := cmd.Commands(); len(cs) >= 2 && cs[0] == "SET" && strings.HasPrefix(cs[1], PlaceholderPrefix) {
 		id = strings.Clone(cs[1])
 	}
+	if sched.TaskID(ctx) == "" && y.sim.Identify != nil {
+		// the package releases locks with context.Background(): two Gets of one client doing that at once would park at
+		// rueidis' yield points under one and the same identity. Name the calling task (a value-only context keeps a
+		// nil Done channel, so rueidis treats it exactly like the original).
+		if who := y.sim.Identify(); len(who) > 1 && who[0] == 't' && strings.Trim(who[1:], "0123456789") == "" {
+			ctx = sched.WithTask(ctx, who)
+		}
+	}
 	res := y.Client.Do(ctx, cmd)
 	if id != "" {
 		y.sim.Park("bg|aside.idset|" + id)
@@ -463,6 +471,7 @@ func execAside(t *testing.T, plan any, out *Outcome) {
 	}
 	s.Heal()
 	s.Cfg.MaxSteps = s.Step + 4000
+	e.background("settle", func(ctx context.Context) {}) // let what the failing connections woke run before Close starts
 	e.background("close", func(ctx context.Context) {
 		for _, ca := range st.cas {
 			ca.Close()
